@@ -229,4 +229,49 @@ example : activateVerdict [.noCredentials, .noCredentials] = "err:failed:nocred"
 example : activateVerdict [.noCredentials, .failed] = "err:failed" := by decide
 example : activateVerdict [] = "err:no-dids" := by decide
 
+theorem alignedBy_length {R : Nat → Mapping → Cred → Prop} : ∀ (ms : List Mapping) (vcs : List Cred) (i : Nat),
+    AlignedBy R i ms vcs → ms.length = vcs.length
+  | [], [], _, _ => rfl
+  | [], _ :: _, _, h => by simp [AlignedBy] at h
+  | _ :: _, [], _, h => by simp [AlignedBy] at h
+  | _ :: ms, _ :: cs, i, h => by
+    simp only [AlignedBy] at h
+    simp [alignedBy_length ms cs (i + 1) h.2]
+
+/-- without submission requirements a registration is never partial: the client presents exactly one credential per
+    input descriptor of the service's definition -/
+theorem client_registration_never_partial (re : Regex) (pd : PD) (wallet : List Cred) (regCred : Option Cred) (vcs : List Cred)
+    (hsr : pd.srs = []) (h : clientRegistrationCreds Facts.C12.cfg re pd wallet regCred = .ok vcs) :
+    vcs.length = pd.descs.length := by
+  unfold clientRegistrationCreds at h
+  simp only at h
+  split at h
+  · cases h
+  · cases h
+  · next ms matching hm =>
+    injection h with h; subst h
+    obtain ⟨hal, hids⟩ := match_sound re pd _ ms matching hm
+    have h1 := alignedBy_length ms matching 0 hal
+    have h2 := congrArg List.length (hids hsr)
+    simp at h2
+    omega
+
+/-- the client reports missing credentials (instead of registering a partial presentation) only when some input
+    descriptor has NO satisfying credential in its wallet, or the evaluation itself failed (basic definitions;
+    `hs` as in `match_complete_or_error`) -/
+theorem client_registration_reports_missing (re : Regex) (pd : PD) (wallet : List Cred) (regCred : Option Cred)
+    (hs : ∀ c ∈ clientCredentials wallet regCred, ∀ p v, getValueAtPath p c.tree = some v → EnumErrorsHideNothing Facts.C12.cfg re v)
+    (hsr : pd.srs = []) (e : String) (h : clientRegistrationCreds Facts.C12.cfg re pd wallet regCred = .err e) :
+    (∃ d ∈ pd.descs, ∀ c ∈ clientCredentials wallet regCred, ¬ Satisfies re pd d c) ∨
+      ∃ e', matchConstraints Facts.C12.cfg re pd (clientCredentials wallet regCred) pd.descs = .err e' := by
+  unfold clientRegistrationCreds at h
+  simp only at h
+  split at h
+  · next e0 hm =>
+    exact match_complete_or_error re pd _ hs hsr e0 hm
+  · cases h
+  · cases h
+
+example : (clientRegistrationCreds Cfg.fixed reDemo demoPD [regDecoy, regCred] none).cls = "ok" ∧ demoPD.srs = [] := by decide
+
 end Nuts.C12.Props
